@@ -525,7 +525,9 @@ func c08Directed(c *caseCtx) (res caseResult) {
 		return mon.count(func(x any) bool { ev, ok := x.(actor.ActorStoppedEvent); return ok && ev.PID.ID == id }) > 0
 	}
 	lg := newTlog()
-	switch c.n % 2 {
+	switch c.n % 3 {
+	case 2:
+		c08Respawn(c, e, &res)
 	case 0:
 		// a third party poisons the child; while the child is inside Stopped (held) the parent is shut down
 		tree := []*tnode{{idx: 0, parent: -1, id: "tree/0", kids: []int{1}}, {idx: 1, parent: 0, id: "tree/0/n/1", holdStop: true}}
@@ -610,4 +612,92 @@ func c08Directed(c *caseCtx) (res caseResult) {
 		res.Sample = map[string]any{"scenario": res.Desc}
 	}
 	return res
+}
+
+// c08Respawn: a child is stopped by a third party while its parent spawns the same
+// child id again. Whatever the interleaving, afterwards the parent's Children()
+// must agree with the registry: a live child is listed, a listed child is live.
+type respawnParent struct {
+	made int32
+}
+
+func (p *respawnParent) Receive(c *actor.Context) {
+	switch m := c.Message().(type) {
+	case c10Do:
+		m.f(c)
+	}
+}
+
+func c08Respawn(c *caseCtx, e *actor.Engine, res *caseResult) {
+	wd := watchdog(c.tier)
+	parent := e.Spawn(func() actor.Receiver { return &respawnParent{} }, "rp", actor.WithID("p"))
+	do := func(f func(c *actor.Context)) bool {
+		done := make(chan struct{})
+		e.Send(parent, c10Do{f: func(c *actor.Context) { f(c); close(done) }})
+		select {
+		case <-done:
+			return true
+		case <-time.After(wd):
+			return false
+		}
+	}
+	spawnKid := func(c *actor.Context) {
+		c.SpawnChildFunc(func(*actor.Context) { userPerturb() }, "kid", actor.WithID("k"))
+	}
+	kid := actor.NewPID("local", "rp/p/kid/k")
+	attempts := 40
+	for i := 0; i < attempts && res.Verdict != vViolated; i++ {
+		if !do(spawnKid) {
+			res.inconclusive("parent did not answer")
+			return
+		}
+		// third party stops the child; as soon as the registry has let go of it the parent spawns it again
+		ctx := e.Poison(kid)
+		respawned := make(chan struct{})
+		go func() {
+			defer close(respawned)
+			waitFor(wd, func() bool { return e.Registry.GetPID("rp/p/kid", "k") == nil })
+			do(spawnKid)
+		}()
+		select {
+		case <-ctx.Done():
+		case <-time.After(wd):
+			res.inconclusive("child did not stop")
+			return
+		}
+		select {
+		case <-respawned:
+		case <-time.After(wd):
+			res.inconclusive("respawn did not finish")
+			return
+		}
+		// both are over: compare the two views from inside the parent
+		var listed, live bool
+		if !do(func(c *actor.Context) {
+			for _, k := range c.Children() {
+				if k.ID == kid.ID {
+					listed = true
+				}
+			}
+			live = c.GetPID(kid.ID) != nil
+		}) {
+			res.inconclusive("parent did not answer")
+			return
+		}
+		if listed != live {
+			res.violate("attempt %d: after a third party stopped the child while the parent spawned its id again, Children() lists it: %v, but it is registered and alive: %v", i, listed, live)
+		}
+		res.count("respawn_races", 1)
+		if live {
+			select {
+			case <-e.Poison(kid).Done():
+			case <-time.After(wd):
+				res.inconclusive("child did not stop")
+				return
+			}
+		}
+	}
+	e.Poison(parent)
+	res.Desc = "directed: third party stops a child while the parent respawns the same id"
+	res.Sig = sigHash("directed", 2, c.n%7)
 }
